@@ -220,6 +220,51 @@ Theorem C19_forward_uses_router_on_arrival_network : forall n arr a snet d x, In
 Proof. exact node_fwd_arrival_net. Qed.
 Print Assumptions C19_forward_uses_router_on_arrival_network.
 
+(* ---- wave 6: the two remaining knowledge-dependent emissions of NetworkServiceElement.
+   The announcement handler repeats what it heard on every OTHER adapter, after recording it and before the
+   parked requests are released; the recorded knowledge and the releases are those of node_iam. *)
+Theorem C19_announcement_relayed_after_recording : forall n sn a ds,
+  fst (node_iam_full n sn a ds) = fst (node_iam n sn a ds) /\
+  (forall n', fst (node_iam n sn a ds) = Ok n' ->
+     snd (node_iam_full n sn a ds) = iam_relay n sn ds ++ snd (node_iam n sn a ds)) /\
+  (forall x, (2 <= length (nadapters n))%nat -> In x (nadapters n) -> x <> sn -> In (IAmR x None ds) (iam_relay n sn ds)) /\
+  (forall e, In e (iam_relay n sn ds) -> exists x, e = IAmR x None ds /\ In x (nadapters n) /\ x <> sn).
+Proof. exact node_iam_full_spec. Qed.
+Print Assumptions C19_announcement_relayed_after_recording.
+
+(* Who-Is-Router-To-Network d (d not attached) heard on net arr from station a: whatever the node emits is
+   EITHER the single claim I-Am-Router-To-Network [d] to the asker, and then the look-up over the attached
+   networks names a next hop for d on an adapter other than arr; OR the question relayed on another adapter
+   with the asker as SADR, and then no attached network has a next hop for d.  Never a claim without knowledge. *)
+Theorem C19_whois_claims_only_known : forall n arr a d e, zmem d (nadapters n) = false -> In e (node_whois n arr a d) ->
+  (e = IAmR arr (Some a) [d] /\ node_whois n arr a d = [e] /\
+   exists sn x, route n d = Some (sn, x) /\ In sn (nadapters n) /\ sn <> arr /\ get_router_info (ncache n) sn d = Some x)
+  \/ (exists sn, e = WhoIsFwd sn d arr a /\ In sn (nadapters n) /\ sn <> arr /\
+      forall sn0, In sn0 (nadapters n) -> get_router_info (ncache n) sn0 d = None).
+Proof. exact node_whois_claim. Qed.
+Print Assumptions C19_whois_claims_only_known.
+
+Theorem C19_whois_answered_when_known_elsewhere : forall n arr a d sn x,
+  (2 <= length (nadapters n))%nat -> zmem d (nadapters n) = false ->
+  get_router_info (ncache n) arr d = None -> In sn (nadapters n) -> get_router_info (ncache n) sn d = Some x ->
+  node_whois n arr a d = [IAmR arr (Some a) [d]].
+Proof. exact node_whois_answered. Qed.
+Print Assumptions C19_whois_answered_when_known_elsewhere.
+
+Theorem C19_whois_unknown_is_relayed : forall n arr a d, (2 <= length (nadapters n))%nat -> zmem d (nadapters n) = false -> arr <> -1 ->
+  (forall sn, In sn (nadapters n) -> get_router_info (ncache n) sn d = None) ->
+  node_whois n arr a d = map (fun sn => WhoIsFwd sn d arr a) (filter (fun sn => negb (sn =? arr)) (nadapters n)).
+Proof. exact node_whois_unknown. Qed.
+Print Assumptions C19_whois_unknown_is_relayed.
+
+Theorem C19_whois_after_announcement : forall n sn a ds n' arr b d, Inv (ncache n) ->
+  (2 <= length (nadapters n))%nat -> In sn (nadapters n) -> sn <> arr -> zmem d (nadapters n) = false -> In d ds ->
+  get_router_info (ncache n) arr d = None ->
+  fst (node_iam n sn a ds) = Ok n' ->
+  node_whois n' arr b d = [IAmR arr (Some b) [d]].
+Proof. exact node_whois_after_announcement. Qed.
+Print Assumptions C19_whois_after_announcement.
+
 (* non-vacuity: a coherent non-empty cache, and the repaired-defect histories evaluated *)
 Example C19_example_history :
   let s := run empty [Learn 1 1 [10; 11] 0; Learn 1 2 [11; 12] 0; Learn 2 3 [10] 0] in
@@ -262,8 +307,30 @@ Example C19_example_traffic :
   let (n3, o3) := node_step n2 (NReq 11 2) in
   let (n4, o4) := node_step n3 (NFwd 1 2 12 10) in
   (o1, o2, o3, o4, npending n4)
-  = ([WhoIs 1 11; WhoIs 2 11], [Send 1 1 11 1 None], [Send 1 1 11 2 None], [Send 1 1 10 0 (Some 12)], []).
+  = ([WhoIs 1 11; WhoIs 2 11], [IAmR 2 None [10; 11]; Send 1 1 11 1 None], [Send 1 1 11 2 None], [Send 1 1 10 0 (Some 12)], []).
 Proof. vm_compute. reflexivity. Qed.
+(* Who-Is-Router on a node with an UNNUMBERED adapter (-1) next to net 2: unknown and asked from the unnumbered
+   side -> not relayed (no SADR can be formed), asked from net 2 -> relayed with the asker as SADR; after router 3
+   on net 2 announced 10, a question from the unnumbered side is answered, one from net 2
+   is not (same network); after the withdrawal the question is relayed again - and a look-up from the
+   unnumbered network never sees what is known on net 2 *)
+Example C19_example_whois :
+  let n0 := mkN empty [-1; 2] [] in
+  let (n1, o1) := node_step n0 (NWhoIs (-1) 7 10) in
+  let (n2, o2) := node_step n1 (NIAm 2 3 [10]) in
+  let (n3, o3) := node_step n2 (NWhoIs (-1) 7 10) in
+  let (n4, o4) := node_step n3 (NWhoIs 2 7 10) in
+  let (n5, o5) := node_step n4 (NOps [Forget 2 None (Some [10])]) in
+  let (n6, o6) := node_step n5 (NWhoIs (-1) 7 10) in
+  let (n7, o7) := node_step n6 (NWhoIs 2 7 10) in
+  (o1, o2, o3, o4, o6, o7, get_router_info (ncache n4) (-1) 10, route n4 10)
+  = ([], [IAmR (-1) None [10]], [IAmR (-1) (Some 7) [10]], [], [], [WhoIsFwd (-1) 10 2 7], None, Some (2, 3)).
+Proof. vm_compute. reflexivity. Qed.
+Example C19_example_whois_hypotheses :
+  let n := mkN (run empty [Learn 2 3 [10] 0]) [1; 2] [] in
+  (2 <= length (nadapters n))%nat /\ zmem 10 (nadapters n) = false /\ get_router_info (ncache n) 1 10 = None /\
+  In 2 (nadapters n) /\ get_router_info (ncache n) 2 10 = Some 3.
+Proof. vm_compute. repeat split; auto. Qed.
 (* the three repaired defects, on the model of the repaired code *)
 Example C19_example_forget_dnets_no_nameerror :
   step (run empty [Learn 1 1 [10; 11] 0]) (Forget 1 None (Some [10])) <> Err NameErr /\
